@@ -9,6 +9,8 @@
    Statement parts and where they are:
      "never stored or served"            C07_forbidden_never_stored (histories), .._default / .._exp (all event
                                          sequences of the engines), C07_forbidden_never_read (every read returns store rows)
+     "refused every time"                C07_forbidden_always_refused, C07_forbidden_every_time (histories containing the same hash any
+                                         number of times), C07_rejected_peer_dropped_every_time (after any engine event sequence)
      "descendants only ever orphans"     C07_descendants_orphan_partial (+ C07_orphans_stay_orphans_partial); the positive-work
                                          hypothesis is the one of C01 (zero-work headers: known finding of C01)
      "sender disconnected (and banned)"  C07_rejected_peer_dropped_default / _exp: exactly [Ban p; Disconnect p] / [Disconnect p],
@@ -45,6 +47,26 @@ Proof. exact forbidden_never_read. Qed.
 
 Theorem C07_oracle_forbidden_absent : forall f s, no_forb f s -> spec_forbidden_absent f (rows_of s) = true.
 Proof. exact rows_of_forbidden_absent. Qed.
+
+
+(* ---- a forbidden hash is refused EVERY time: in any history, however often the same hash was submitted before ---- *)
+Theorem C07_forbidden_always_refused : forall f gid gpl hs h, memN gid f = false -> memN (s_id h) f = true ->
+  plan f (run f gid gpl hs) h = (Forbidden, []) /\ add f (run f gid gpl hs) h = (run f gid gpl hs, Forbidden).
+Proof. exact forbidden_always_refused. Qed.
+
+Theorem C07_forbidden_every_time : forall f gid gpl pre h post, memN gid f = false -> memN (s_id h) f = true ->
+  nth (length pre) (outcomes f (init gid gpl) (pre ++ h :: post)) ErrNoTip = Forbidden.
+Proof. exact forbidden_every_time. Qed.
+
+(* ... and after ANY sequence of engine events the sender of a forbidden header is dropped (second, third .. delivery alike) *)
+Theorem C07_rejected_peer_dropped_every_time : forall cfg s0 evs p c o pre h post s1 rc1 fin1,
+  no_forb (c_forb cfg) s0 ->
+  let st := d_run cfg (d_init cfg s0) evs in
+  aget p (d_states st) = Some c -> d_hfm st = true -> aget p (d_objs st) = Some o -> po_conn o = true ->
+  hloop (c_forb cfg) (d_next st) (d_store st) false None pre = HDone s1 rc1 fin1 ->
+  memN (s_id h) (c_forb cfg) = true ->
+  exists st', on_headers cfg st p (pre ++ h :: post) = (st', [Ban p; Disconnect p]) /\ d_store st' = s1.
+Proof. exact rejected_peer_dropped_every_time. Qed.
 
 (* ---- descendants ---- *)
 Theorem C07_descendants_orphan_partial : forall f gid gpl hs,
@@ -203,6 +225,9 @@ Print Assumptions C07_forbidden_never_stored.
 Print Assumptions C07_forbidden_never_stored_default.
 Print Assumptions C07_forbidden_never_stored_exp.
 Print Assumptions C07_forbidden_never_read.
+Print Assumptions C07_forbidden_always_refused.
+Print Assumptions C07_forbidden_every_time.
+Print Assumptions C07_rejected_peer_dropped_every_time.
 Print Assumptions C07_oracle_forbidden_absent.
 Print Assumptions C07_descendants_orphan_partial.
 Print Assumptions C07_oracle_desc_orphan.
